@@ -178,7 +178,7 @@ def Term.rpcCode (t : Term) : Nat :=
   | some c => c
   | none => t.status.getD 0
 
-structure Stream where
+structure Strm where
   id : Nat
   rpc : Nat
   reader : Bool               -- the RPC goroutine reads as data arrives
@@ -252,7 +252,7 @@ structure State where
   now : Nat
   tstate : TState
   nextID : Nat
-  streams : List Stream
+  streams : List Strm
   rpcs : List Rpc
   goAwayClosed : Bool           -- close(t.goAway) happened
   prevGoAwayID : Nat
@@ -297,7 +297,7 @@ def init (hdrSize : Nat) (maxConc : Option Nat) (maxSendHdr : Option Nat) : Stat
 
 /-! ## primitives -/
 
-def State.updStream (s : State) (i : Nat) (f : Stream → Stream) : State :=
+def State.updStream (s : State) (i : Nat) (f : Strm → Strm) : State :=
   { s with streams := s.streams.modify i f }
 
 def State.updRpc (s : State) (k : Nat) (f : Rpc → Rpc) : State :=
@@ -321,6 +321,12 @@ def State.put (s : State) (it : Item) : State :=
 def State.sendToken (s : State) : State :=
   if s.quota > 0 && s.waiting > 0 then { s with token := true } else s
 
+/-- the stream-record update of the `swapState(streamDone)` winner in `closeStream` -/
+def closeF (err : Option Nat) (st : Nat) (x : Strm) : Strm :=
+  if x.term.isSome then x else
+  { x with term := some { err := err, status := some st }, noHeaders := if x.hdrClosed then x.noHeaders else true,
+           hdrClosed := true }
+
 /-- `t.closeStream(s, err, rst, rstCode, st, …)`: the `swapState(streamDone)` winner records the
 outcome, closes headerChan, and queues `cleanupStream` with `addBackStreamQuota`. -/
 def State.closeStream (s : State) (i : Nat) (err : Option Nat) (st : Nat) (rst : Bool) (rstCode : Nat) : State :=
@@ -328,21 +334,18 @@ def State.closeStream (s : State) (i : Nat) (err : Option Nat) (st : Nat) (rst :
   | none => s
   | some str =>
     if str.term.isSome then s else
-    let s := s.updStream i fun x =>
-      { x with term := some { err := err, status := some st }, noHeaders := if x.hdrClosed then x.noHeaders else true,
-               hdrClosed := true }
+    let s := s.updStream i (closeF err st)
     if s.cbufClosed then s else
     ({ s with quota := s.quota + 1, cbuf := s.cbuf ++ [Item.cleanup str.id rst rstCode] }).sendToken
 
+/-- the stream-record update of `NewStream`'s `cleanup` closure -/
+def orphanF (err : Nat) (x : Strm) : Strm :=
+  if x.term.isSome then x else
+  { x with term := some { err := some err, status := none }, unprocessed := true, hdrClosed := true }
+
 /-- `cleanup` closure of `NewStream` (`onOrphaned` / `initStream` failure): the stream never reached
 the wire; no status is recorded, the reader gets `err`, the stream is marked unprocessed. -/
-def State.orphan (s : State) (i : Nat) (err : Nat) : State :=
-  match s.streams[i]? with
-  | none => s
-  | some str =>
-    if str.term.isSome then s else
-    s.updStream i fun x =>
-      { x with term := some { err := some err, status := none }, unprocessed := true, hdrClosed := true }
+def State.orphan (s : State) (i : Nat) (err : Nat) : State := s.updStream i (orphanF err)
 
 /-- `t.onClose(GoAwayInfo{…})` -/
 def State.notify (s : State) (reason code : Nat) (hasErr : Bool) : State :=
@@ -370,6 +373,9 @@ def fcOnRead (pd pu n : Nat) : Nat × Nat :=
   let pd := pd - n
   let pu := pu + n
   if pu ≥ limit / 4 then (pd, 0) else (pd, pu)
+
+/-- first HEADERS of a gRPC response: `CompareAndSwapUint32(&s.headerChanClosed, 0, 1)`, headerValid, close(headerChan) -/
+def hdrF (x : Strm) : Strm := if x.hdrClosed then x else { x with hdrClosed := true, headerValid := true }
 
 /-- `operateHeaders` -/
 def State.operateHeaders (s : State) (sid : Nat) (es trunc : Bool) (fields : List (Bytes × Bytes)) : State :=
@@ -404,7 +410,7 @@ def State.operateHeaders (s : State) (sid : Nat) (es trunc : Bool) (fields : Lis
                 else s.updStream i fun x => { x with nonGRPC := some (code, 0) }
         else if sc.headerError then s.closeStream i (some cInternal) cInternal true h2Protocol
         else if !es then
-          s.updStream i fun x => if x.hdrClosed then x else { x with hdrClosed := true, headerValid := true }
+          s.updStream i hdrF
         else
           -- trailers (or trailers-only): the RPC reads io.EOF and takes `status`
           s.closeStream i none sc.grpcStatus (str.term.isNone && !str.wdone) h2No
@@ -465,18 +471,42 @@ def State.handleRST (s : State) (sid code : Nat) : State :=
       else sc
     s.closeStream i (some sc) sc false h2No
 
+/-- value of the last setting with the given id -/
+def lastSetting (ss : List (Nat × Nat)) (id : Nat) : Option Nat :=
+  ((ss.filter (fun p => p.1 == id)).getLast?).map (·.2)
+
 /-- `handleSettings(f, false)` -/
 def State.handleSettings (s : State) (ack : Bool) (ss : List (Nat × Nat)) : State :=
   if ack then s else
   if s.cbufClosed then s else     -- executeAndPut fails before running the update functions
-  let s := ss.foldl (fun s (p : Nat × Nat) => if p.1 = 6 then { s with maxSendHdr := some p.2 } else s) s
-  let s := match (ss.filter (fun p => p.1 = 3)).getLast? with
+  let s := match lastSetting ss 6 with
+    | some v => { s with maxSendHdr := some v }
     | none => s
-    | some (_, v) =>
+  let s := match lastSetting ss 3 with
+    | none => s
+    | some v =>
       let delta : Int := (v : Int) - (s.maxConc : Int)
       let s := { s with maxConc := v, quota := s.quota + delta }
       if delta > 0 && s.waiting > 0 then { s with chanGen := s.chanGen + 1, token := false } else s
   { s with cbuf := s.cbuf ++ [.settingsAck] }
+
+/-- the streams `handleGoAway` marks: `streamID > id && streamID <= upperLimit` over `t.activeStreams` -/
+def isVictim (id upper : Nat) (st : Strm) : Bool := st.inActive && st.id > id && st.id ≤ upper
+
+def markF (x : Strm) : Strm := { x with unprocessed := true }
+
+/-- `stream.unprocessed.Store(true)` for every victim (done or not), under `t.mu` -/
+def State.markVictims (s : State) (id upper : Nat) : State :=
+  { s with streams := s.streams.map fun x => if isVictim id upper x then markF x else x }
+
+/-- `closeStream(stream, errStreamDrain, false, ErrCodeNo, statusGoAway, …)` for the victims at indices `< n` -/
+def State.closeVictims (s : State) (id upper : Nat) : Nat → State
+  | 0 => s
+  | n + 1 =>
+    let s := s.closeVictims id upper n
+    match s.streams[n]? with
+    | some st => if isVictim id upper st then s.closeStream n (some cUnavailable) cUnavailable false h2No else s
+    | none => s
 
 /-- `handleGoAway`; the returned error is assigned to the reader's `errClose`, and the reader loop
 goes on to the next frame (it is only counted here). -/
@@ -496,21 +526,19 @@ def State.handleGoAway (s : State) (id code : Nat) (debug : Bytes) : State :=
   let s :=
     if s.activeCount == 0 then { s with goAwayErrs := s.goAwayErrs + 1 }
     else
-      let victims := (List.range s.streams.length).filter fun i =>
-        match s.streams[i]? with
-        | some st => st.inActive && st.id > id && st.id ≤ upper
-        | none => false
       -- stream.unprocessed.Store(true) for every victim (done or not), then closeStream outside t.mu
-      let s := victims.foldl (fun s i => s.updStream i fun x => { x with unprocessed := true }) s
-      victims.foldl (fun s i => s.closeStream i (some cUnavailable) cUnavailable false h2No) s
+      (s.markVictims id upper).closeVictims id upper s.streams.length
   if first then s.put .inGoAway else s
+
+/-- `streams := t.activeStreams; t.activeStreams = nil` -/
+def snapF (x : Strm) : Strm := { x with inSnapshot := x.inActive, inActive := false }
 
 /-- `http2Client.Close`, first critical section (under `t.mu`) up to `controlBuf.put(&goAway{…})`. -/
 def State.closeP1 (s : State) (hasErr : Bool) : State :=
   if s.tstate = .closing then s else
   let s := if s.tstate ≠ .draining then s.notify 0 0 hasErr else s
   let s := { s with tstate := TState.closing,
-                    streams := s.streams.map fun (x : Stream) => { x with inSnapshot := x.inActive, inActive := false } }
+                    streams := s.streams.map snapF }
   let s := s.put .outGoAway
   { s with closeP := .waitWriter (s.now + 5000) }
 
@@ -541,13 +569,19 @@ def State.onFrame (s : State) (f : Frame) : State :=
 
 /-! ## loopy -/
 
+/-- `v.onOrphaned(ErrConnClosing)` for the queued `clientHeaders` items -/
+def State.orphanQueued (s : State) : List Item → State
+  | [] => s
+  | .hdr id :: rest =>
+    (match s.findId id with
+     | some i => (s.orphan i cUnavailable).orphanQueued rest
+     | none => s.orphanQueued rest)
+  | _ :: rest => s.orphanQueued rest
+
 /-- `controlBuffer.finish`: close the buffer, orphan queued HEADERS -/
 def State.finish (s : State) : State :=
   if s.cbufClosed then s else
-  let s := s.cbuf.foldl (fun s it =>
-    match it with
-    | .hdr id => (match s.findId id with | some i => s.orphan i cUnavailable | none => s)
-    | _ => s) s
+  let s := s.orphanQueued s.cbuf
   { s with cbuf := [], cbufClosed := true }
 
 /-- tail of `loopyWriter.run` and of the goroutine that runs it: Flush (unless I/O error), `finish()`,
@@ -628,6 +662,12 @@ def State.loopyAbort (s : State) : State × List Wire :=
 
 /-! ## application side -/
 
+/-- `NewStream` goes back to its select with the channel it already had (nil on the first try) -/
+def reblockF (r : Rpc) : Rpc :=
+  match r.st with
+  | .blocked ch => { r with st := .blocked ch }
+  | _ => { r with st := .blocked none }
+
 /-- one pass of `NewStream`'s `executeAndPut(checkForHeaderListSize && checkForStreamQuota, hdr)` for
 RPC `k` (`first` = firstTry). -/
 def State.tryNewStream (s : State) (k : Nat) (first : Bool) : State :=
@@ -645,12 +685,10 @@ def State.tryNewStream (s : State) (k : Nat) (first : Bool) : State :=
     let s := { s with quota := s.quota - 1 }
     if s.tstate ≠ .reachable then
       -- not created; the caller goes back to its select with the channel it already had
-      s.updRpc k fun r => match r.st with
-        | .blocked ch => { r with st := .blocked ch }
-        | _ => { r with st := .blocked none }
+      s.updRpc k reblockF
     else
       let id := s.nextID
-      let str : Stream :=
+      let str : Strm :=
         { id := id, rpc := k, reader := r.reader, deadline := r.deadline, wdone := false, term := none,
           unprocessed := false, hdrClosed := false, headerValid := false, noHeaders := false,
           bytesReceived := false, nonGRPC := none, pd := 0, pu := 0, inActive := true, inSnapshot := false,
@@ -746,15 +784,21 @@ def State.closeP2 (s : State) : State :=
     if s.lExited || tAt ≤ s.now then { s with ctxDone := true, connClosed := true, closeP := .waitReader } else s
   | _ => s
 
+/-- `for _, s := range streams { t.closeStream(s, err, false, http2.ErrCodeNo, st, nil, false) }` over indices `< n` -/
+def State.closeSnapshot (s : State) : Nat → State
+  | 0 => s
+  | n + 1 =>
+    let s := s.closeSnapshot n
+    match s.streams[n]? with
+    | some st => if st.inSnapshot then s.closeStream n (some cUnavailable) cUnavailable false h2No else s
+    | none => s
+
 /-- `Close` after `<-t.readerDone`: notify the captured streams -/
 def State.closeP3 (s : State) : State :=
   match s.closeP with
   | .waitReader =>
     if !s.readerDone then s else
-    let s := (List.range s.streams.length).foldl (fun s i =>
-      match s.streams[i]? with
-      | some st => if st.inSnapshot then s.closeStream i (some cUnavailable) cUnavailable false h2No else s
-      | none => s) s
+    let s := s.closeSnapshot s.streams.length
     { s with closeP := .done }
   | _ => s
 
